@@ -193,14 +193,21 @@ theorem C17_pipe_late_completion_closed (c : Cfg) (hpos : 0 < c.size) (as : List
      refine ⟨h0, rfl, ?_⟩
      simp [h0] at hg ⊢; omega)
 
+/- FULL PROPERTY (not a theorem of the code that exists): after Session.Close, once every connect in flight has
+   returned, no socket is open and no pool holds a connection, for every schedule before, around and after the Close.
+   The unchanged code violates it when an addHost (UP event, ring refresh, reconnect ticker) runs after Session.Close's
+   policyConnPool.Close() and before its s.cancel(): addHost does not know the session is closing, registers a new
+   pool and fills it; nothing closes that pool (`C17_cex_addhost_in_close_window`). -/
 open Pipe C17Pipe in
 /-- after Session.Close, once every connect in flight has returned, no socket is open and no pool holds a
-    connection — for every schedule before, around and after the Close -/
-theorem C17_pipe_session_close_leaves_nothing (c : Cfg) (hpos : 0 < c.size) (as : List Act) (h : Host)
-    (hr : (Host.init c).run as = some h) (hsc : h.sessClosed = true) (hq : ∀ p ∈ h.pools, p.att = []) :
+    connection — for every schedule before, around and after the Close in which no addHost ran between Session.Close's
+    policyConnPool.Close() and its s.cancel() -/
+theorem C17_pipe_session_close_leaves_nothing_partial (c : Cfg) (hpos : 0 < c.size) (as : List Act) (h : Host)
+    (hr : (Host.init c).run as = some h) (hsc : h.sessClosed = true) (hla : h.lateAdd = false)
+    (hq : ∀ p ∈ h.pools, p.att = []) :
     h.opened = 0 ∧ h.closedConns = 0 ∧ h.cur = none := by
   have ⟨hi, _⟩ := hinv_run as _ h (hinv_init c hpos) hr
-  have hcur := hi.sess hsc
+  have hcur := hi.sess hsc hla
   have hall : ∀ p ∈ h.pools, p.closed = true ∧ p.conns = [] ∧ p.opened = 0 := by
     intro p hp
     rcases mem_pools h p hp with hc | hold
@@ -220,6 +227,17 @@ theorem C17_pipe_session_close_leaves_nothing (c : Cfg) (hpos : 0 < c.size) (as 
     intro x hx
     obtain ⟨p, hp, rfl⟩ := List.mem_map.mp hx
     simp [(hall p hp).2.1]
+
+/-- counterexample to the full property on the code that exists: size 2; the pool is full; Session.Close closes the
+    pools; an addHost arrives before the session context is cancelled: a new pool is registered and filled (attempts 3
+    and 4 complete); the context is cancelled — Session.Close has returned, every connect has returned, and two
+    connections are open in a pool that nothing will close -/
+theorem C17_cex_addhost_in_close_window :
+    ∃ h, (Pipe.Host.init ⟨2, false, 0⟩).run
+      [.ok 2, .ok 2, .ok 2, .stop, .sclose, .up, .ok 3, .ok 3, .ok 3, .ok 4, .ok 4, .ok 4, .stop, .scancel] = some h ∧
+      h.sessClosed = true ∧ h.cancelled = true ∧ h.lateAdd = true ∧ (∀ p ∈ h.pools, p.att = []) ∧
+      h.opened = 2 ∧ h.cur.map (·.conns) = some [3, 4] ∧ h.cur.map (·.closed) = some false := by
+  refine ⟨_, rfl, ?_, ?_, ?_, ?_, ?_, ?_, ?_⟩ <;> decide
 
 /-- non-vacuity, and the schedule of the seeded change: size 2, keyspace configured; the second connection is
     dialled, gets SUPPORTED and READY and waits for the USE reply; the host is removed; the reply arrives -/
